@@ -2,6 +2,8 @@
 import json, os
 from lib import vcheck as V
 
+IDS = ["C16"]
+
 RULE = ("behaviours = complete event sequences (arrive / exec ok|fail / cleanup / wake / return / recycle) emitted by TLC from SingleFlight.tla "
         "(Coarse = TRUE: one per transition of the view-reduced graph that leaves nobody mid-call); each replayed, with gated executions, on the real "
         "singleflight.Group and on SingleFlightProvider wrappers of both services (ordered pairs of coalesced methods, seeded), then validated step by step by TLC; "
